@@ -178,3 +178,17 @@ Proof.
     injection R as <- _. rewrite (g_find _ _ G k Hkk), Mk. reflexivity.
   - eapply step_address_stable; eassumption.
 Qed.
+
+(* erase of an absent key: stops in one of erase's three assertions, before any store is issued *)
+Theorem erase_absent_stops esz lsz s M k : Full s M -> k < K64 -> M k = None ->
+  exists w, erase s k = AssertStop w /\ (w = AEraseNull \/ w = AErasePrefix \/ w = AEraseMask) /\
+            fst (erase_prog s k) = [] /\ step_op esz lsz s (OErase k) = AssertStop w.
+Proof.
+  intros [G Sh] Hk Mk. pose proof (g_inv _ _ G) as I. pose proof (g_find _ _ G k Hk) as F. rewrite Mk in F.
+  destruct (erase_absent s k I Hk F) as (w & R & Hw). exists w. split; [exact R|]. split; [exact Hw|]. split.
+  - destruct (find_walk s k I Hk) as (st & W & F'). rewrite F in F'. injection F' as F'.
+    unfold erase_prog. rewrite (walk_erase _ _ _ I Hk _ _ _ W 17 (fuel_ok_root _ _ I)).
+    destruct st as [p|p si|e m ix]; cbn [erase_of_stop lift pbind fst]; try reflexivity.
+    cbn [find_of_stop] in F'. destruct (N.testbit m ix); [discriminate|]. reflexivity.
+  - cbn [step_op]. rewrite F. cbn [bind]. rewrite R. reflexivity.
+Qed.
